@@ -10,7 +10,9 @@ import gsm_shared
 
 RULE = ("finite domain enumerated completely: every FN 0..2715647 through gsm_fn2gsmtime / gsm_gsmtime2fn (unmodified "
         "gsm_utils.c) against a div/mod reference; l1s_time_inc (unmodified firmware sync.c) from every FN with delta 1 "
-        "and each delta of {2..60,1325,1326,2715647} (both tiers: everywhere, ~1.9e8 calls); a full-hyperframe walk of successive +1 steps incl. the wrap; Python "
+        "and each delta of {0,2..60,1325,1326,2715647} (both tiers: everywhere, ~1.9e8 calls); a full-hyperframe walk of successive +1 steps incl. the wrap; "
+        "generated histories: one running time stepped in place by random delta sequences (0, 1, small, superframe-sized, arbitrary, near-hyperframe) "
+        "from 8 start frames at the carry points, 8 generator streams derived from VERIF_SEED; Python "
         "fn2gsm_time for every FN against the same reference and against the C output. Every evaluation is a distinct "
         "(fn, delta) pair; non-trivial = all (each is a distinct point of the finite domain).")
 LEVEL = "exploration"
@@ -18,7 +20,7 @@ ASSUMPTIONS = ["C compiled for x86-64 by clang (not the ARM target)",
                "sync.c's hardware/DSP references are satisfied by never-executed weak stubs; only l1s_time_inc is called"]
 
 HYPER = 2715648
-DELTAS = list(range(2, 61)) + [1325, 1326, 2715647]
+DELTAS = [0] + list(range(2, 61)) + [1325, 1326, 2715647]
 
 
 def build(ctx):
@@ -60,6 +62,9 @@ def c_side(ctx, rec):
         lo, hi = i * step, min(HYPER, (i + 1) * step)
         jobs.append(("sweep-deltas", ["sweep", lo, hi] + DELTAS))
     jobs.append(("walk", ["walk"]))
+    n_mix = 200000 if ctx.tier == "quick" else 4000000
+    for i in range(8):
+        jobs.append(("mixed-delta-history", ["mixwalk", ctx.seed * 100 + i, n_mix]))
     dump = os.path.join(ctx.build, "c_times.bin")
     jobs.append(("dump", ["dump", dump]))
     with ThreadPoolExecutor(16) as ex:
